@@ -6,7 +6,10 @@ EXTENDS Naturals, Sequences, FiniteSets, TLC, Json
 VARIABLES cfg, st, last
 C == INSTANCE @NAME@
 vars == <<cfg, st, last>>
-ArgsFor(S) == {f \in [S -> UNION {C!ArgDom(cfg, m) : m \in S}] : \A m \in S : f[m] \in C!ArgDom(cfg, m)}
+RECURSIVE ArgsFor(_)
+ArgsFor(S) == IF S = {} THEN {<<>>}
+              ELSE LET m == CHOOSE x \in S : TRUE
+                   IN {(m :> a) @@ f : a \in C!ArgDom(cfg, m), f \in ArgsFor(S \ {m})}
 CallSets == UNION {ArgsFor(S) : S \in SUBSET C!Methods(cfg)}
 Admissible(calls) ==
   /\ \A m \in DOMAIN calls : C!Callable(cfg, st, m, calls[m], calls)
